@@ -16,4 +16,9 @@ SCENARIOS = [
          bounds="SetVariable, GetVariable, CloneVariables, Put/FindIItemAwareLocator, CloneItems, Merge", expect_obligations=[]),
     dict(name="C17 event delivery while a task runs", entry="VerifC17_EventDelivery", K=120, reach=["registered", "done"], overrides=STD, native=False,
          bounds="one token through a task (stand-in activity inside the real harness), event deliveries before and after, one consumer registration", expect_obligations=[]),
+    dict(name="C17 two tokens evaluate conditions at the same time", entry="VerifC17_ConcurrentConditions", K=60, reach=["registered", "done"], native=False,
+         inits=["github.com/olive-io/bpmn/v2", "github.com/olive-io/bpmn/schema", "github.com/olive-io/bpmn/v2/pkg/expression"],
+         overrides={k: v for k, v in STD.items() if "executeSequenceFlow" not in k},
+         bounds="two flow objects of one instance each evaluating one conditional flow (2 symbolic booleans) in its own goroutine; real executeSequenceFlow, GetEngine, RegisterEngine; the registered engine is a stand-in that is not goroutine-safe and checks that it is never entered twice",
+         expect_obligations=["an expression engine instance is never used by two goroutines at the same time", "a condition evaluated concurrently with another token's condition yields its own result"]),
 ]
